@@ -59,7 +59,7 @@ def run_store(pid, tier, *, profiles, preds, res_filter, mc_depth, gen_depth, rn
     try:
         for prof in profiles:
             r = vf.tlc_mc("StoreMC", "mc.cfg", files={"mc.cfg": mc_cfg(prof, mc_depth[tier][prof])}, timeout=2400, heap="16g",
-                          workers=min(12, vf.NCPU), coverage=(tier == "thorough"))
+                          workers=min(12, vf.NCPU), coverage=False)  # TLC's -coverage makes this module 100x slower (recursive operators)
             states += r.distinct
             transitions += r.generated
             cov["mc"].append({"profile": prof, "depth": mc_depth[tier][prof], "distinct": r.distinct, "generated": r.generated,
